@@ -96,7 +96,10 @@ func r08_9(c *Ctx, r *Report) {
 		}
 		stop, _, target, why := decodeLoopInput(c, fn)
 		if stop == nil {
-			r.bad(rule, a.name+" hands the record's code list to its decode loop", c.fnPos(fn), "undecided: "+why)
+			// the decode loop is not where it is looked for (it may sit in a shared worker that picks the half itself):
+			// the whole accessor is followed instead, decode loop and all, and the names it lists compared
+			decoderByEvaluation(c, r, rule, fn, a.name, a.table, a.keyLen, a.half, recs, why)
+			n++
 			continue
 		}
 		n++
@@ -196,4 +199,123 @@ func r08_9(c *Ctx, r *Report) {
 	}
 	r.floor(rule, 4)
 	_ = n
+}
+
+// decoderByEvaluation: the accessor followed whole (list model, the decode loop as a table over the iteration number)
+// for a spread of keys: the names it lists are those of the codes in the half of the record it stands for, or 无.
+func decoderByEvaluation(c *Ctx, r *Report, rule string, fn *ssa.Function, name, table string, keyLen, half int, recs map[string][2]string, why string) {
+	namesTable := "yiJi"
+	if table == "dayShenSha" {
+		namesTable = "shenSha"
+	}
+	names := c.tabStrs(r, rule, "LunarUtil", namesTable)
+	jiaZi := c.tabStrs(r, rule, "LunarUtil", "JIA_ZI")
+	if len(names) == 0 || len(jiaZi) != 60 {
+		return
+	}
+	type kv struct{ p0, p1 int64 }
+	var keys []kv
+	step := int64(7)
+	if c.Tier == "thorough" {
+		step = 1
+	}
+	if keyLen == 3 {
+		for m := int64(1); m <= 12; m++ {
+			for d := int64(0); d < 60; d += step {
+				keys = append(keys, kv{m, d}, kv{-m, d})
+			}
+		}
+	} else {
+		for d := int64(0); d < 60; d += step {
+			for t := int64(0); t < 60; t++ {
+				keys = append(keys, kv{d, t})
+			}
+		}
+	}
+	var bad []string
+	cases := 0
+	for _, k := range keys {
+		if len(bad) >= 4 {
+			break
+		}
+		k := k
+		var lm *listModel
+		leaf := func(fr *evalFrame, v ssa.Value) (interface{}, bool) {
+			if p, ok := v.(*ssa.Parameter); ok && fr.parent == nil && fr.fn == fn {
+				switch paramIndex(fn, p) {
+				case 0:
+					if isIntType(p.Type()) {
+						return k.p0, true
+					}
+					return jiaZi[k.p0], true
+				case 1:
+					return jiaZi[k.p1], true
+				}
+			}
+			if x, ok := lm.leaf(c, fr, v); ok {
+				return x, true
+			}
+			if call, ok := v.(*ssa.Call); ok && call.Common().StaticCallee() != nil && call.Common().StaticCallee().Name() == "GetJiaZiIndex" && len(call.Common().Args) == 1 {
+				// the position of a pillar in the cycle (the search itself is R08.4 / R18.6)
+				if o, ok := evalWith(fr, call.Common().Args[0], func(fr2 *evalFrame, v2 ssa.Value) (interface{}, bool) {
+					if p, ok := v2.(*ssa.Parameter); ok && fr2.parent == nil && fr2.fn == fn && !isIntType(p.Type()) {
+						if paramIndex(fn, p) == 0 {
+							return jiaZi[k.p0], true
+						}
+						return jiaZi[k.p1], true
+					}
+					return nil, false
+				}); ok {
+					for i, p := range jiaZi {
+						if o == interface{}(p) {
+							return int64(i), true
+						}
+					}
+				}
+				return nil, false
+			}
+			return nil, false
+		}
+		ev := &evaluator{leaf: leaf, inline: inlineLibrary, counted: 400, maxDepth: 200}
+		lm = newListModel(ev)
+		ev.visit = lm.visit
+		res, outcome := ev.run(fn, nil, nil, nil, nil)
+		cases++
+		var key string
+		if keyLen == 3 {
+			m := k.p0
+			if m < 0 {
+				m = -m
+			}
+			key = fmt.Sprintf("%X%02X", m, k.p1)
+		} else {
+			key = fmt.Sprintf("%02X%02X", k.p0, k.p1)
+		}
+		var want []string
+		if rec, present := recs[key]; present {
+			for i := 0; i+2 <= len(rec[half]); i += 2 {
+				var code int
+				fmt.Sscanf(rec[half][i:i+2], "%X", &code)
+				if code < len(names) {
+					want = append(want, names[code])
+				} else {
+					want = append(want, "?")
+				}
+			}
+		}
+		if len(want) == 0 {
+			want = []string{"无"}
+		}
+		got := "not followed: " + outcome + " " + ev.fail
+		if outcome == "return" && len(res) == 1 {
+			if p, isP := res[0].(absPtr); isP && len(p.tag) > 5 && p.tag[:5] == "list@" {
+				got = fmt.Sprint(lm.render(p.tag))
+			}
+		}
+		if got != fmt.Sprint(want) {
+			bad = append(bad, fmt.Sprintf("key %s: %s, the record says %s", key, head(got, 80), head(fmt.Sprint(want), 80)))
+		}
+	}
+	sort.Strings(bad)
+	r.check(len(bad) == 0 && cases > 0, rule, name+" hands the record's code list to its decode loop", c.fnPos(fn), fmt.Sprintf("followed whole (%s): %d keys; deviations: %v", why, cases, headList(bad, 3)))
 }
